@@ -1008,6 +1008,7 @@ def judge(data, script, dec, expect_forward=None, cache_on=False, denied=None, e
     ei = 0
     client_reqs = []
     pooler_group = False
+    stray_used = set()
     for r in data['reqs']:
         m = r['bytes']
         bi = r['backend']
@@ -1030,6 +1031,18 @@ def judge(data, script, dec, expect_forward=None, cache_on=False, denied=None, e
             r['origin'] = 'client'
             client_reqs.append(r)
             pooler_group = False
+            continue
+        # a COPY sub-protocol message the client sent OUTSIDE a COPY (the server ignores it) may overtake the client's still unsynced
+        # extended messages: not a request shape the property speaks of, and nothing the server acts on
+        stray = None
+        if code_of(m) in 'dcf':
+            for k in range(ei, len(fw)):
+                if k not in stray_used and skippable[k] and code_of(fw[k]) in 'dcf' and same_bytes(dec, m, fw[k]):
+                    stray = k
+                    break
+        if stray is not None:
+            stray_used.add(stray)
+            r['origin'] = 'client-stray'
             continue
         cm = conc(m)
         if cm is not None and cm[:1] == b'Q' and POOLER_SQL.match(cm[5:-1]):
@@ -1153,7 +1166,9 @@ def judge(data, script, dec, expect_forward=None, cache_on=False, denied=None, e
         units = [r for r in data['reqs'] if r.get('origin') == 'client' and code_of(r['bytes']) in 'QS']
         # (with statement caching on, which Sync units are the client's and which the pooler's own re-preparations is not decidable
         # from the wire alone: the totals are judged with caching off)
-        if outcome[0] == 'done' and not cache_on and not any(e[0] in ('statement_timeout',) for e in data['events']):
+        # (a client that breaks off its own COPY with a message the sub-protocol does not allow gets that message answered by the server's
+        # error: whether it counts as a query / transaction "executed" is not something the property settles)
+        if outcome[0] == 'done' and not cache_on and not any(e[0] in ('statement_timeout',) for e in data['events']) and not aborts_own_copy(script):
             # (a request whose reply could not be written because the client had vanished may or may not have been counted)
             slack = 1 if data.get('client_write_failed') else 0
             want_q = len(units)
@@ -1218,8 +1233,15 @@ def skippable_flags(script, cache_on=False):
     buffered = 0
     open_batch = []
     copy = False
+    copy_data = []
     for i, m in enumerate(script):
         c = code_of(m)
+        if copy and c not in 'dcfHS':
+            # the client breaks off its own COPY FROM STDIN with a message the sub-protocol does not allow: the server fails the COPY
+            # whatever data it got, so CopyData the pooler had not passed on yet may be dropped (hostile orders are C11's subject)
+            for j in copy_data:
+                out[j] = True
+            copy, copy_data = False, []
         if c in 'PBDEC':
             buffered += 1
             open_batch.append(i)
@@ -1238,12 +1260,29 @@ def skippable_flags(script, cache_on=False):
             copy = _starts_copy_in(m)
         elif c in 'dcf' and copy:
             out.append(False)
+            if c == 'd':
+                copy_data.append(i)
             if c in 'cf':
-                copy = False
+                copy, copy_data = False, []
         else:
             # X, H, COPY sub-protocol messages outside COPY IN, codes that are not frontend messages
             out.append(True)
     return out
+
+
+def aborts_own_copy(script):
+    """The client sends, while its COPY FROM STDIN is open, a message the COPY sub-protocol does not allow (anything but CopyData / CopyDone /
+    CopyFail / Flush / Sync)."""
+    copy = False
+    for m in script:
+        c = code_of(m)
+        if copy and c not in 'dcfHS':
+            return True
+        if c == 'Q':
+            copy = _starts_copy_in(m)
+        elif c in 'cf':
+            copy = False
+    return False
 
 
 def must_forward(script, cache_on=False):
